@@ -411,7 +411,8 @@ pub fn run(opts: &Opts) -> i32 {
                 // literals are re-spelled canonically (`+5` as `5`, `1e5` as `100000.0`): C12's subject
                 sink.count("literal_not_accounted");
             } else if only == "c13" {
-                sink.case3(&r, &a, &o);
+                // the Lean oracle decides; the third column only names a known defect class
+                if o == "ok" { sink.case(&r, &a) } else { sink.case3(&r, &a, &o) }
             } else {
                 sink.case(&format!("# {}", tag.replace([' ', '\t'], "_")), "formatted");
             }
